@@ -556,10 +556,19 @@ func (rg *Range) callAxioms(name string, c *ssa.Call) {
 			}
 		}
 	case "builtin.min":
+		allNonneg := true
 		for _, arg := range c.Call.Args {
 			if x, ok := rg.lin(arg); ok {
 				rg.axiom(x.minus(a))
+				if !rg.nonneg(x) {
+					allNonneg = false
+				}
+			} else {
+				allNonneg = false
 			}
+		}
+		if allNonneg {
+			rg.axiom(a) // the minimum of non-negative values
 		}
 	case "bytes.IndexByte", "bytes.Index", "bytes.LastIndexByte", "bytes.LastIndex", "bytes.IndexAny", "bytes.IndexRune",
 		"strings.IndexByte", "strings.Index", "strings.LastIndexByte", "strings.LastIndex", "strings.IndexAny", "strings.IndexRune":
